@@ -117,8 +117,9 @@ type Relay struct {
 	// failNext: how many of the next Send calls on a stream fail with a
 	// stream error (each also detaches the writer, as a broken connection to
 	// the relay would): several in a row make the sender's retry fail too
-	failNext  map[string]int
-	slowClose atomic.Int64
+	failNext     map[string]int
+	slowClose    atomic.Int64
+	loseDelReply atomic.Int64
 	// nextWho: the party to attribute the next event to (set under mu)
 	nextWho       string
 	slowSendClose atomic.Int64
@@ -274,8 +275,17 @@ func (r *Relay) DelCipherBox(ctx context.Context, in *hashmailrpc.CipherBoxAuth,
 	if ws != nil {
 		ws.fail()
 	}
+	if r.loseDelReply.Add(-1) >= 0 {
+		// the box is gone but the answer is lost on the way back
+		return nil, status.Error(codes.Unavailable, "transport is closing")
+	}
+	r.loseDelReply.Store(0)
 	return &hashmailrpc.DelCipherBoxResp{}, nil
 }
+
+// LoseDelReplies makes the next k DelCipherBox calls that delete a box return
+// an error although the box was deleted (the answer is lost).
+func (r *Relay) LoseDelReplies(k int) { r.loseDelReply.Store(int64(k)) }
 
 // ---- receive side -------------------------------------------------------
 
